@@ -18,7 +18,7 @@ func init() {
 	register(&run.Check{
 		ID:    "C20",
 		Level: "model_checking",
-		Rule: "bounded-exhaustive: fragment sequences (k<=3 over F, k<=4 over the core), byte strings over B, URL strings (sequences <=3 over the URL alphabet, and <=3 tail fragments after five well-formed prefixes, placed in a.href / img.src / q.cite) link attribute lists (<=3; <=2 under every combination of the five link options x rel / target admission) and style attributes (<=2 declarations of C10's alphabet under every in-class style rule set and a permissive value pattern), " +
+		Rule: "bounded-exhaustive: fragment sequences (k<=3 over F, k<=4 over the core), byte strings over B, URL strings (sequences <=3 over the URL alphabet, and <=3 tail fragments after ten well-formed prefixes, placed in a.href / img.src / q.cite; the URL layers include a policy that admits ftp / tel by scheme pattern only) link attribute lists (<=3; <=2 under every combination of the five link options x rel / target admission) and style attributes (<=2 declarations of C10's alphabet under every in-class style rule set and a permissive value pattern), " +
 			"crossed with every policy of the family that is in the property's class (no raw-text element, no comments, no value pattern on rewritten attributes, no rewriter) plus Strict and UGC " +
 			"(UGC only when no del/ins cite survives the first pass). Oracle: Sanitize(Sanitize(x)) == Sanitize(x). non-trivial = first pass changed the input.",
 		Assumptions: []string{"class membership is decided by the harness's spec view of the builder calls, not by inspecting the policy object"},
